@@ -3133,7 +3133,8 @@ psf_open_file (SF_PRIVATE *psf, SF_INFO *sfinfo)
 	if (psf->fileoffset > 0)
 	{	switch (psf->file.mode)
 		{	case SFM_READ :
-				if (psf->filelength < 44)
+				/* Nothing shorter than the smallest header of the formats that can be embedded (AU : 24 bytes). */
+				if (psf->filelength < 24)
 				{	psf_log_printf (psf, "Short filelength: %D (fileoffset: %D)\n", psf->filelength, psf->fileoffset) ;
 					error = SFE_BAD_OFFSET ;
 					goto error_exit ;
